@@ -591,6 +591,7 @@ def _h_resync(ctx, fams, aro, cuts, n_up, n_down, up_kinds, down_kinds, losses=1
     routes = [mk_route(ctx, pool, fam, sel, p) for fam, sel, p in configured]
     fresh_neighbor(nb, routes)
     rib = nb.rib.outgoing
+    watch = K.StaleWatch(rib)   # diagnostic: which RIB primitive left a superseded pending entry (F2 = _update_rib)
 
     # ---- the plan: cut of every lost attempt, operations while up / while down
     plan, ops_up, ops_down = [], [], []
@@ -734,7 +735,7 @@ def _h_resync(ctx, fams, aro, cuts, n_up, n_down, up_kinds, down_kinds, losses=1
         superseded pending entry that was queued since the last reset - decided per prefix, so that another defect on
         the same path, or an entry that survived a reset, is still reported under its own signature"""
         if rows and all(any(same(k, r[0][0]) for k in run.stale_keys) for r in rows):
-            return 'stale-pending-entry'
+            return watch.cause(run.stale_seen, mode)
         return mode
     res_down = [x for x in extra if x[1] is not None and x[1]['phase'] == 'down']
     res_up = [x for x in extra if x[1] is not None and x[1]['phase'] != 'down']
